@@ -430,3 +430,61 @@ def pickup_of_solved_thickness(c):
     ya, _ = lens.paraxial.marginal_ray()
     c.ensure_eq('C01.update.solve_holds_next_to_a_dependent_pickup', c.val(ya[2]), h)
     c.ensure_eq('C01.update.pickup_follows_the_solved_gap', c.val(sg.get_thickness(3)), sc * c.val(sg.get_thickness(1)) + of)
+
+
+# ---- bounded: media given as catalogue glasses (name, or (name, reference)) ----------------------------------------------------------
+def _catalogue_media(ct, tier, seed):
+    """a lens built with catalogue glasses: the medium behind each surface is the catalogue entry *given for that surface* (the same
+    glass name with two different references included), and it is the medium in front of the next surface"""
+    import time
+    import warnings
+    import numpy as np
+    from optiland.optic import Optic
+    from optiland.materials import Material
+    warnings.simplefilter('ignore')
+    t0 = time.time()
+    clauses, fails, cases = {}, [], 0
+
+    def note(cid, ok, detail, inputs):
+        c_ = clauses.setdefault(cid, {'paths': 0, 'proved': 0, 'backends': {}, 'failed': [], 'seconds': 0.0, 'bounded': True})
+        c_['paths'] += 1
+        if ok:
+            c_['proved'] += 1
+            c_['backends']['runtime'] = c_['backends'].get('runtime', 0) + 1
+        else:
+            fails.append({'clause': cid, 'draws': inputs, 'note': detail})
+    recipes = [
+        [('F2', 'schott'), 'air', ('F2', 'hikari'), 'air'],
+        [('F2', 'hikari'), 'air', ('F2', 'schott'), 'air'],
+        ['N-BK7', 'air', ('N-BK7', 'schott'), 'air', ('CAF2', 'Daimon-20'), ('CAF2', 'Malitson'), 'air'],
+        ['N-SK16', 'air', 'F2', 'air', 'N-SK16', 'air'],
+    ]
+    for glasses in recipes:
+        L = Optic()
+        L.add_surface(index=0, thickness=np.inf)
+        for j, g in enumerate(glasses):
+            L.add_surface(index=j + 1, radius=(50.0 if j % 2 == 0 else -60.0), thickness=3.0, material=g, is_stop=(j == 0))
+        L.add_surface(index=len(glasses) + 1)
+        L.add_wavelength(0.55, is_primary=True)
+        inputs = {'glasses': [str(g) for g in glasses]}
+        cases += 1
+        sg = L.surface_group.surfaces
+        for j, g in enumerate(glasses):
+            post = sg[j + 1].material_post
+            if g == 'air':
+                note('C01.runtime.air_gap_has_unit_index', float(np.ravel(post.n(0.55))[0]) == 1.0, 'surface %d' % (j + 1), inputs)
+            else:
+                ref = Material(g) if isinstance(g, str) else Material(g[0], reference=g[1])
+                same = getattr(post, 'filename', None) == ref.filename and all(
+                    float(np.ravel(post.n(w))[0]) == float(np.ravel(ref.n(w))[0]) for w in (0.45, 0.55, 0.65))
+                note('C01.runtime.medium_behind_a_surface_is_the_catalogue_entry_given_for_it', same,
+                     'surface %d given %s holds %s (expected %s)' % (j + 1, g, getattr(post, 'filename', '?')[-40:], ref.filename[-40:]), inputs)
+            note('C01.runtime.medium_in_front_of_the_next_surface_is_that_medium', sg[j + 2].material_pre is post, 'surface %d' % (j + 1), inputs)
+    return {'contract': ct.name, 'functions': ct.functions, 'props': ct.props,
+            'symbolic': {'clauses': clauses, 'paths': 0, 'errors': [], 'solver_s': 0.0, 'samples': [], 'wd_assumed': [], 'assumed': []},
+            'numeric': {'accepted': cases, 'rejected': 0, 'failures': fails[:10], 'concolic_agree': 0, 'encoder_mismatches': [],
+                        'samples': [{'recipes': [[str(g) for g in r] for r in recipes]}]}, 'wall_s': time.time() - t0}
+
+
+contract('C01.runtime.catalogue_media', [SF + ':SurfaceFactory._configure_material', SF + ':SurfaceFactory.create_surface', OP + ':Optic.add_surface'],
+         ['C01'], custom=_catalogue_media)(lambda c: None)
